@@ -69,8 +69,16 @@ Fixpoint seek_after (ws : list word) (tokR tokL : Z) (level : Z) : list word :=
               else seek_after r tokR tokL level
   end.
 
+(* for len(words) > 0 && words[0].tok == token.COMMENT { words = words[1:] } *)
+Fixpoint drop_comments (ws : list word) : list word :=
+  match ws with
+  | [] => []
+  | w :: r => if wtok w =? xgo_COMMENT then drop_comments r else ws
+  end.
+
 (* isFuncDecl(words) *)
-Definition is_func_decl (ws : list word) : M bool :=
+Definition is_func_decl (ws0 : list word) : M bool :=
+  let ws := drop_comments ws0 in
   if start_with ws xgo_LPAREN then
     ws1 <- slice_from ws 1 ;;
     let ws2 := seek_after ws1 xgo_RPAREN xgo_LPAREN 0 in
